@@ -101,3 +101,20 @@ def nonpurge_loop_effects(b, roles):
 def removal_group(effs, ent_key=None):
     """split effects into REMOVE groups: each UNBIND with the CNT-/PART-/AUX_DEL/MOVE that go with it"""
     return [e for e in effs if e.kind == 'UNBIND']
+
+
+def bodiless_iterations(top):
+    """iterations of a loop that contains single-key operations but that do not themselves consult the index
+    (an element of the range is handled without performing the single operation)"""
+    out = []
+    for lp, segs in top.loops:
+        fs = feasible_iters(segs)
+        has = [s for s in fs if s.conds_of('PRESENT') or any(find_bodies(x, None) for x in [s] if x.loops)]
+        if not has:
+            continue
+        for s in fs:
+            if s.status == 'exit':
+                continue
+            if not s.conds_of('PRESENT') and not find_bodies(s, None):
+                out.append((lp, s))
+    return out
